@@ -12,7 +12,7 @@ for d in sorted(glob.glob("/verif/seeded/*")):
     if len(needs) > 200:
         needs = needs[:197] + "..."
     det = (m.get("detection_note") or "").replace("|", "/")
-    rows.append("| `%s` | %s | %s | %s | %s |" % (name, m["property"], summ, needs, ("**not a violation (check stays silent)**: " if m.get("property_holds_on_changed_tree") else "caught: " if m.get("caught_by_checks_as_first_run") else "**missed at first**: ") + det))
+    rows.append("| `%s` | %s | %s | %s | %s |" % (name, m["property"], summ, needs, ("**NOT CAUGHT**: " if m.get("documented_miss") else "**not a violation (check stays silent)**: " if m.get("property_holds_on_changed_tree") else "caught: " if m.get("caught_by_checks_as_first_run") else "**missed at first**: ") + det))
 txt = ["<!-- SEEDED-BEGIN -->",
        "| seeded change | property | what was changed | what it needs to manifest | detection |", "|---|---|---|---|---|"] + rows + ["<!-- SEEDED-END -->"]
 p = "/verif/DESIGN.md"
